@@ -302,6 +302,7 @@ func genC10(c *Ctx) {
 				c.check(eqShares(ref, shs), "CompactShareSplitter", "shares differ from the specified encoding", wit)
 			}
 			c.count("very_long_unit")
+			c.goOnly++
 		}
 	}
 	// crafted shares: all 256 info bytes x reserved-byte values x namespaces
@@ -638,6 +639,7 @@ func genC09(c *Ctx) {
 		} else {
 			txs = big[i-nRandom]
 			c.count("very_long_unit")
+			c.goOnly++
 		}
 		if i < nRandom && i%4 == 0 {
 			// per-write counts and the exported bytes
@@ -780,6 +782,7 @@ func genC11(c *Ctx) {
 				}
 			}
 			c.count("very_long_unit")
+			c.goOnly++
 		}
 	}
 	for i := 0; i < nseq+len(corpus); i++ {
